@@ -8,7 +8,7 @@ use margined_common::asset::AssetInfo;
 use crate::{
     contract::OWNER,
     messages::execute_vamm_shutdown,
-    querier::{query_engine_decimals, query_vamm_decimals},
+    querier::{query_engine_decimals, query_vamm_decimals, query_vamm_open},
     state::{read_config, read_vammlist, remove_vamm as remove_amm, save_vamm, Config, VAMM_LIMIT},
 };
 
@@ -76,8 +76,16 @@ pub fn shutdown_all_vamm(deps: DepsMut, env: Env, info: MessageInfo) -> StdResul
     // construct all the shutdown messages
     let keys = read_vammlist(deps.as_ref(), VAMM_LIMIT)?;
 
+    // a vAMM rejects a SetOpen that does not change its state, so only address the open ones
     for vamm in keys.iter() {
-        msgs.push(execute_vamm_shutdown(vamm.clone())?);
+        if query_vamm_open(&deps.as_ref(), vamm.to_string())? {
+            msgs.push(execute_vamm_shutdown(vamm.clone())?);
+        }
+    }
+
+    // nothing left to shut down (same answer a vAMM gives to a redundant SetOpen)
+    if msgs.is_empty() {
+        return Err(StdError::generic_err("unauthorized"));
     }
 
     Ok(Response::default().add_submessages(msgs))
